@@ -614,6 +614,10 @@ class Spectrum:
                                  np.where(self.wave <= end))
         wave = self.wave[indices]
         value = self.value[indices]
+        if value.dtype.kind in 'biu':
+            # integer and boolean values are integrated as numbers (the sums
+            # would otherwise wrap around in the values' own type)
+            value = value.astype(float)
 
         if method == 'simps':
             result = scipy.integrate.simpson(x=wave, y=value)
